@@ -96,6 +96,10 @@ def gen(r, tier):
             # the transport's send() RAISES for one of the copies (not the first): a datagram layer that throws instead of
             # reporting an error -- that copy is lost before the wire, everything else goes on as scheduled
             "send_raises": (r.randint(1, max(1, mr)) if (kind == "request" and mr >= 1 and r.chance(0.12)) else None),
+            # the application's own callbacks fail when they are handed the outcome (it asked to observe; whatever comes
+            # -- a response without Observe, a Reset, the time-out -- its callback and errback raise): the exchange is
+            # concluded by the ACK / Reset all the same
+            "raiser": kind == "request" and r.chance(0.15),
         })
     net = faults.swarm(r, kinds=("drop", "dup", "delay"))
     return {"msgs": msgs, "net": net, "stall": (r.chance(0.15))}
@@ -115,6 +119,11 @@ def systematic(tier):
                                           "tuning": {"MAX_RETRANSMIT": mr, "ACK_TIMEOUT": 1.0},
                                           "blockwise": False, "script": script, "eps": 1e-6}],
                                 "net": {}, "stall": False})
+        for kind in ("piggy", "rst", "ack"):
+            script = [None] * (mr + 1)
+            script[0] = [kind, POSITIONS[0]]
+            out.append({"msgs": [{"id": 0, "kind": "request", "peer": 0, "t": 0.0, "tuning": {"MAX_RETRANSMIT": mr, "ACK_TIMEOUT": 1.0},
+                                  "blockwise": False, "script": script, "eps": 1e-6, "raiser": True}], "net": {}, "stall": False})
         out.append({"msgs": [{"id": 0, "kind": "sepresp", "peer": 0, "t": 0.0,
                               "tuning": {"MAX_RETRANSMIT": mr, "ACK_TIMEOUT": 0.5, "ACK_RANDOM_FACTOR": 2.0},
                               "blockwise": False, "script": [None] * (mr + 1), "eps": 1e-6}],
@@ -390,7 +399,15 @@ def execute(sim, scn):
             def start(m=m, ip=ip):
                 msg = Message(code=GET, uri="coap://[%s]/x%d" % (ip, m["id"]),
                               transport_tuning=common.make_tuning(m["tuning"]))
-                rec = tracker.start(m["id"], client, msg, handle_blockwise=m["blockwise"])
+                if m.get("raiser"):
+                    msg.opt.observe = 0
+                rec = tracker.start(m["id"], client, msg, handle_blockwise=m["blockwise"] and not m.get("raiser"))
+                if m.get("raiser"):
+                    def raiser(_):
+                        sim.probe("application_callback_raised")
+                        raise RuntimeError("application callback fails")
+                    rec["req"].observation.register_errback(raiser)
+                    rec["req"].observation.register_callback(raiser)
                 if m.get("cancel_at") is not None:
                     def cancel(rec=rec):
                         if not rec["req"].response.done():
